@@ -435,7 +435,21 @@ const VALID_NEIGHBOURS: &[(&str, &str)] = &[
     ("list_global_in_for", "global gs*\n(module) { for g in gs { print g } }"),
     ("non_nullable_regexes", "(module) { scan \"a\" { \"a+\" { } \"\\\\bx\" { } \"b|c\" { } } }"),
     ("let_in_for_body_each_iteration", "(module) { for x in [1, 2] { let y = x } }"),
+    ("shadowing_with_another_shape_list_inside", "(module (_)* @xs) { let v = 1 if #true { let v = @xs for x in v { print x } print [ y for y in v ] } }"),
+    ("shadowing_with_another_shape_optional_inside", "(return_statement (_)? @r) { let v = 1 for i in [1] { let v = @r if some v { print v } } }"),
+    ("shadowing_with_another_shape_local_inside", "(identifier) @id { var v = @id.scoped scan \"a\" { \"a\" { let v = \"b\" scan v { \"b\" { print $0 } } } } }"),
+    ("declarations_between_and_after_stanzas", "(module) { node n }\nglobal zq_late\n(module) { print zq_late }\nattribute zq_sh = v => a = v\n(module) { node n attr (n) zq_sh = 1 }\ninherit .zq_scope\nglobal zq_last = \"d\""),
+    ("same_comprehension_variable_in_sibling_set_comprehensions", "(module) { let a = { x for x in [1] } let b = { x for x in [2] } let x = 3 print a, b, x }"),
+    ("same_comprehension_variable_in_sibling_list_comprehensions", "(module) { let a = [ x for x in [1] ] let b = [ x for x in [2] ] let x = 3 print a, b, x }"),
     ("variable_named_like_keyword_prefix", "(module) { let something = #true let none_left = #false if something, none_left { } }"),
+];
+
+/// shadowing where the inner binding is the one that breaks a shape rule (the outer one would not)
+const INVALID_NEIGHBOURS: &[(&str, &str, &str)] = &[
+    ("shadowing_inner_scalar_iterated", "(module (_)* @xs) { let v = @xs if #true { let v = 1 for x in v { print x } } }", "ExpectedListValue"),
+    ("shadowing_inner_scalar_in_comprehension", "(module (_)* @xs) { let v = @xs for i in [1] { let v = 1 print [ y for y in v ] } }", "ExpectedListValue"),
+    ("shadowing_inner_non_optional_tested", "(return_statement (_)? @r) { let v = @r if #true { let v = 1 if some v { } } }", "ExpectedOptionalValue"),
+    ("shadowing_inner_non_local_scanned", "(identifier) @id { let v = \"a\" if #true { let v = @id.scoped scan v { \"a\" { } } } }", "ExpectedLocalValue"),
 ];
 
 impl Prop for C06 {
@@ -458,6 +472,20 @@ impl Prop for C06 {
                 match exec::load(text) {
                     Loaded::Ok(_) => out.feat(&format!("valid_neighbour:{}", name)),
                     Loaded::Err(e) => out.violation("C06:valid-neighbour-rejected", &format!("{}: a rule-abiding file was rejected: {}", name, e), json!({"dsl": text})),
+                    Loaded::Panic(p) => out.violation("C06:load-panic", &format!("{}: {}", p.location, p.message), json!({"dsl": text})),
+                }
+            }
+            for (name, text, variant) in INVALID_NEIGHBOURS {
+                out.eval();
+                match exec::load(text) {
+                    Loaded::Ok(_) => out.violation(&format!("C06:accepted:{}", variant), &format!("{}: a file that breaks the rule was accepted", name), json!({"dsl": text})),
+                    Loaded::Err(e) => {
+                        if format!("{:?}", e).contains(variant) {
+                            out.feat(&format!("invalid_neighbour:{}", name));
+                        } else {
+                            out.violation(&format!("C06:wrong-rule:{}", variant), &format!("{}: rejected, but not for breaking the rule: {:?}", name, e), json!({"dsl": text}));
+                        }
+                    }
                     Loaded::Panic(p) => out.violation("C06:load-panic", &format!("{}: {}", p.location, p.message), json!({"dsl": text})),
                 }
             }
@@ -527,6 +555,10 @@ impl Prop for C06 {
                 if wild && !stmts.is_empty() && rng.chance(1, 2) {
                     // multi-byte text right before the offending construct (often on the same line)
                     stmts.insert(0, print_(GExpr::str("ünï 😀 日本")));
+                } else if wild && !stmts.is_empty() && rng.chance(1, 2) {
+                    // a string with line feeds and tabs before it: random layouts write half of
+                    // these literally, so the literal spans three lines
+                    stmts.insert(0, print_(GExpr::str("first line\nsecond\tline\nthird")));
                 }
                 if needs_global {
                     let at = rng.below(f.items.len() + 1);
